@@ -225,7 +225,7 @@ def s_sim(draw, max_steps=40):
             a = T * draw(st.floats(0, 1.0))
             rules.append({'rule': 'constant', 'start': G.qty('Time', a, draw(G.s_unit('Time'))),
                           'duration': G.qty('TimeInterval', T * draw(st.floats(0.02, 0.6)), draw(G.s_unit('TimeInterval'))),
-                          'value': draw(st.one_of(st.floats(-1, 1), st.sampled_from([1, -1, 0])))})
+                          'value': G._duty(draw(st.one_of(st.floats(-1, 1), st.sampled_from([1, -1, 0]))))})
     case['control'] = rules
     case['history'] = [dict(run, control=True)]
     return case
